@@ -68,6 +68,11 @@ Theorem C03_persistence_rules :
   Bootstrap.POLL_PERSISTS_WORSE_TIP = false.
 Proof. repeat split; reflexivity. Qed.
 
+(* ... and nobody else writes the last known block (main()'s bootstrap and the Better arm of the poll are the only
+   call sites): it never moves in the middle of a poll, which is what poll_crash_at / lkb_persisted_after_poll assume *)
+Theorem C03_last_known_block_writers : Bootstrap.LAST_KNOWN_BLOCK_WRITERS = 2%nat.
+Proof. reflexivity. Qed.
+
 (* the executable integrity check used on recovered databases accepts a consistent one *)
 Example C03_integrity_check_nonvacuous :
   db_inv_b (mk_db [(1, mk_uinfo 3 100 200)] [mk_app 7 1 (mk_blob 7 (Some 9) 100) 10 1 100]
@@ -81,6 +86,7 @@ Print Assumptions C03_recover_invariant.
 Print Assumptions C03_primitives_are_statements.
 Print Assumptions C03_inflight_costs_at_most_request.
 Print Assumptions C03_persistence_rules.
+Print Assumptions C03_last_known_block_writers.
 
 (* ============================== operation level ============================== *)
 
